@@ -158,6 +158,18 @@ void element_specials(std::uint64_t tag, unsigned es, unsigned char* out, unsign
         }
     }
 }
+// one special element value (es bytes): 0 zero, 1 all ones, 2 sign bit only (INT_MIN / -0.0), 3 largest positive, 4 one,
+// 5 quiet NaN with payload, 6 SIGNALLING NaN with payload, 7 smallest subnormal pattern with the sign bit
+void special_element(unsigned spec, unsigned es, unsigned char* q) {
+    std::memset(q, 0, es);
+    switch (spec % 8) {
+        case 0: break; case 1: std::memset(q, 0xFF, es); break; case 2: q[es - 1] = 0x80; break;
+        case 3: std::memset(q, 0xFF, es); q[es - 1] = 0x7F; break; case 4: q[0] = 1; break;
+        case 5: q[es - 1] = 0x7F; if (es >= 4) { q[es - 2] = es == 4 ? 0xC0 : 0xF8; q[0] = 0x03; } break;
+        case 6: q[es - 1] = 0x7F; if (es >= 4) { q[es - 2] = es == 4 ? 0x80 : 0xF0; q[1] = 0x02; q[0] = 0x03; } break;
+        default: q[0] = 1; q[es - 1] = 0x80; break;
+    }
+}
 void class_bytes(std::uint64_t tag, unsigned cls, unsigned char* out, unsigned n, unsigned es = 4) {
     if (cls == 6) { element_specials(tag, es ? es : 4, out, n); return; }
     tag_bytes(tag, out, n);
@@ -399,7 +411,7 @@ struct MemEngine : Engine {
                 tgt.push_back((std::size_t)off);
             }
         }
-        if (c.kind == OP_INSERT) tag_bytes(s.unum("tag"), scratch + 64, E);
+        if (c.kind == OP_INSERT) { tag_bytes(s.unum("tag"), scratch + 64, E); if (s.has("spec")) special_element((unsigned)s.unum("spec"), E, scratch + 64); }
         // ---- expected outcome on the reference model
         unsigned char exp_reg[64]; std::memcpy(exp_reg, mreg[c.r], 64); bool reg_out = false;
         unsigned char exp_scalar[8] = {0};
@@ -649,7 +661,8 @@ struct MemEngine : Engine {
         for (unsigned k = 0; k < 4; ++k) { tag_bytes(1000 + k, mreg[k], 64); std::memcpy(areg[k], mreg[k], 64); }
         int stepno = 0;
         for (auto& stp : pl.steps) {
-            if (stp.op == "setreg") { unsigned k = (unsigned)(stp.unum("r") & 3); class_bytes(stp.unum("tag"), (unsigned)stp.unum("cls") % 7, mreg[k], 64, (unsigned)stp.unum("e", 4)); std::memcpy(areg[k], mreg[k], 64); r.log.linef("%d setreg r=%u tag=%llu cls=%u", stepno, k, (unsigned long long)stp.unum("tag"), (unsigned)stp.unum("cls") % 7); s.probes["register_value_class_" + std::to_string((unsigned)stp.unum("cls") % 7)]++; }
+            if (stp.op == "setreg") { unsigned k = (unsigned)(stp.unum("r") & 3); class_bytes(stp.unum("tag"), (unsigned)stp.unum("cls") % 7, mreg[k], 64, (unsigned)stp.unum("e", 4));
+                if (stp.has("spec")) { unsigned es = (unsigned)stp.unum("e", 4); es = es == 1 || es == 2 || es == 4 || es == 8 ? es : 4; unsigned ln = (unsigned)stp.unum("lane") % (64 / es); special_element((unsigned)stp.unum("spec"), es, mreg[k] + ln * es); s.probes["register_lane_holds_special_value"]++; } std::memcpy(areg[k], mreg[k], 64); r.log.linef("%d setreg r=%u tag=%llu cls=%u", stepno, k, (unsigned long long)stp.unum("tag"), (unsigned)stp.unum("cls") % 7); s.probes["register_value_class_" + std::to_string((unsigned)stp.unum("cls") % 7)]++; }
             else if (stp.op == "fill") {
                 // the owner of the buffer rewrites part of it with a value class (through the host view; protections do not matter)
                 std::size_t off = (std::size_t)stp.unum("p") % WBYTES, len = std::min<std::size_t>((std::size_t)stp.unum("len"), 256); if (off + len > WBYTES) len = WBYTES - off;
@@ -707,7 +720,11 @@ struct MemEngine : Engine {
                         }
                 if (t->has_gather) for (unsigned op = 2; op < 4; ++op) for (unsigned form = 0; form < 2; ++form) for (unsigned n = 0; n <= W + 2; ++n) { if (form == 1 && n > W) continue;
                     for (unsigned pl = 0; pl < 7; ++pl) sweep.push_back({ti, (unsigned char)op, (unsigned char)(form ? 2 : 0), (unsigned char)n, (unsigned char)pl, 0, 0}); }
-                for (unsigned lane = 0; lane < W; ++lane) { sweep.push_back({ti, 6, 0, (unsigned char)lane, 0, 0, 0}); sweep.push_back({ti, 7, 0, (unsigned char)lane, 0, 0, 0}); }
+                for (unsigned lane = 0; lane < W; ++lane) { sweep.push_back({ti, 6, 0, (unsigned char)lane, 0, 0, 0}); sweep.push_back({ti, 7, 0, (unsigned char)lane, 0, 0, 0});
+                    // the lane under test holds each special element value in turn (bad = 1 + spec): lane access must be pure bit movement
+                    for (unsigned spec = 0; spec < 8; ++spec) { sweep.push_back({ti, 6, 0, (unsigned char)lane, 0, (unsigned char)(1 + spec), 0}); sweep.push_back({ti, 7, 0, (unsigned char)lane, 0, (unsigned char)(1 + spec), 0}); } }
+                // stores and round trips of vectors whose first / last lane holds a special value
+                for (unsigned spec = 0; spec < 8; ++spec) for (unsigned which = 0; which < 2; ++which) { sweep.push_back({ti, 1, 0, (unsigned char)(W > 1 ? W - 1 + which : 1), 3, (unsigned char)(1 + spec), (unsigned char)(8 + which)}); sweep.push_back({ti, 5, 0, 0, 0, (unsigned char)(1 + spec), (unsigned char)(8 + which)}); }
                 sweep.push_back({ti, 4, 0, (unsigned char)W, 0, 0, 0}); sweep.push_back({ti, 4, 0, (unsigned char)W, 1, 0, 0}); sweep.push_back({ti, 5, 0, 0, 0, 0, 0});
                 if (tier == "thorough") {
                     // thorough: watch windows on EVERY (op, form, n) at the mid-page placement, the neighbour writer at every instruction
@@ -800,7 +817,10 @@ struct MemEngine : Engine {
         const SweepCase& sc = sweep[(std::size_t)i]; const MType* t = types[sc.type];
         Step sr; sr.op = "setreg"; sr.set("r", 1); sr.setu("tag", i * 3 + 7); sr.setu("cls", (i / 7) % 3 == 0 ? (i % 7) : 0); sr.setu("e", t->elem); out.steps.push_back(sr);
         if (sc.op == 0 || sc.op == 2 || sc.op == 4) { }   // loads read the run's seeded memory; see fill below
+        bool lane_spec = (sc.op == 6 || sc.op == 7) && sc.bad >= 1; bool edge_spec = (sc.op == 1 || sc.op == 5) && sc.fault >= 8;
+        if ((lane_spec && sc.op == 6) || edge_spec) { Step& r0 = out.steps.back(); r0.setu("e", t->elem); r0.setu("lane", edge_spec ? (sc.fault == 8 ? 0 : t->width - 1) : sc.n); r0.setu("spec", sc.bad - 1); r0.setu("cls", 0); }
         Step s; s.set("type", t->name); s.set("r", 1); s.setu("poison", i % 250 + 1);
+        if (lane_spec && sc.op == 7) s.setu("spec", sc.bad - 1);
         static const char* OPN[8] = {"load", "store", "gather", "scatter", "fromarr", "toarr", "extract", "insert"};
         s.op = OPN[sc.op];
         if (sc.op <= 1) {
@@ -811,6 +831,7 @@ struct MemEngine : Engine {
             if (sc.place >= 6) place(s, t, sc.n, aligned, sc.op == 1, "end_flush", 2 + (unsigned)(i % 3), sc.place - 5, bad);   // 'near': d elements short of the boundary
             else place(s, t, sc.n, aligned, sc.op == 1, kinds[sc.place], 2 + (unsigned)(i % 3), 0, bad);
             s.set("fault", sc.fault == 1 ? "watch" : sc.fault == 2 ? "neigh" : "none"); if (sc.fault == 2) { s.set("k", "all"); s.setu("ntag", i); }
+            if (edge_spec) bad = 'N';
         } else if (sc.op <= 3) {
             s.set("form", sc.form ? "ct" : "rt"); s.setu("n", sc.n); gs_indices(s, t, sc.n, sc.place, i, sc.op == 3); s.set("fault", "none");
         } else if (sc.op == 4) { s.setu("n", t->width); place(s, t, t->width, false, false, sc.place ? "start_flush" : "end_flush", 3, 0, 'N'); }
@@ -906,8 +927,9 @@ struct MemEngine : Engine {
                 if ((fmask & 2) && sc && r.chance(1, 3)) { s.set("fault", "neigh"); s.setu("k", r.below(4096)); s.setu("ntag", r.below(1u << 20)); } else s.set("fault", "none");
             } else if (w < 88) { s.op = "fromarr"; s.setu("n", W); place(s, t, W, false, false, r.chance(1, 2) ? "end_flush" : "start_flush", 1 + (unsigned)r.below(6), 0, 'N'); }
             else if (w < 91) { s.op = "toarr"; }
-            else if (w < 96) { s.op = "extract"; s.setu("lane", r.below(W)); }
-            else { s.op = "insert"; s.setu("lane", r.below(W)); s.setu("tag", r.below(1u << 24)); }
+            else if (w < 96) { s.op = "extract"; s.setu("lane", r.below(W));
+                if (r.chance(1, 2)) { Step q; q.op = "setreg"; q.setu("r", s.unum("r")); q.setu("tag", r.below(1u << 24)); q.setu("cls", 0); q.setu("e", t->elem); q.setu("lane", s.unum("lane")); q.setu("spec", r.below(8)); out.steps.push_back(q); } }
+            else { s.op = "insert"; s.setu("lane", r.below(W)); s.setu("tag", r.below(1u << 24)); if (r.chance(1, 2)) s.setu("spec", r.below(8)); }
             out.steps.push_back(s);
         }
     }
